@@ -512,16 +512,18 @@ func rulesReadingFrames(c *Ctx, r *Report) {
 		}
 	}
 	var iphi *ssa.Phi
+	var idxV ssa.Value
 	if st != nil {
 		if ia, ok := st.Addr.(*ssa.IndexAddr); ok {
-			iphi, _ = ia.Index.(*ssa.Phi)
+			idxV = ia.Index
+			iphi = loopPhiOf(idxV)
 		}
 	}
 	if iphi == nil {
 		r.undecided("RF", where, "frame store", c.pos(call.Pos()), "the translation is not stored into result[i] for a loop variable i")
 		return
 	}
-	loop, why := findCountedLoop(iphi)
+	loop, why := findCountedLoopAny(iphi, idxV)
 	if why != "" {
 		r.undecided("RF", where, "frame loop", c.pos(iphi.Pos()), why)
 		return
@@ -585,7 +587,7 @@ func rulesReadingFrames(c *Ctx, r *Report) {
 	r.check(isC && cst.IsNil(), "RF-SUB", where, "fresh dst", c.pos(call.Pos()), "each frame is translated into a fresh (nil) destination", "frames are appended to "+s.expr(d).String())
 	// sub = seq[lo:][:len/3*3]
 	arg := s.expr(call.Call.Args[1])
-	i := s.expr(iphi).String()
+	i := s.expr(idxV).String()
 	okShape := false
 	lo := ""
 	if arg.Op == "slice" && arg.Args[0].Op == "slice" && arg.Args[0].Args[0].String() == "P0" && arg.Args[0].Args[2].String() == "_" && arg.Args[1].String() == "_" {
